@@ -125,8 +125,12 @@ def prepare(spec: dict):
         fn = ns[fname]
         owner = None
     else:
-        c = reg.contracts[unit]
-        mod, owner, fn = runtime.resolve(unit)
+        from pyvc.contracts import split_unit
+        base, inst = split_unit(unit)
+        ctx.env.update(inst)          # instance constants (e.g. CAP) are visible to contract expressions
+        c = reg.contracts[base]
+        mod, owner, fn = runtime.resolve(base)
+        unit = base
     return reg, ctx, unit, c, mod, owner, fn
 
 
@@ -199,7 +203,7 @@ def judge(prep, inputs_json: dict, timeout: float, excl=()) -> dict:
                 return {"status": "precondition-false", "clause": "inside known-finding region: " + region}
         except Exception:
             pass
-    old_local = {k: runtime.snapshot(v) for k, v in local.items()}
+    old_local = ctx.snapshot_all(local)
     # 2. call with watchdog
     args = dict(inputs)
     call = fn
